@@ -30,3 +30,144 @@ func TestVerifWitness_D12(t *testing.T) {
 		fmt.Println("WITNESS-PASSES D12 one error text")
 	}
 }
+
+// ---- format(): line oracle over the built-in TEST font (10 px per rune, 100 px per {CONTROL} code) ----
+
+func verifWordWidth(w string) int {
+	n := 0
+	depth := 0
+	for _, r := range w {
+		if r == '{' {
+			depth++
+			if depth == 1 {
+				n += 100
+			}
+			continue
+		}
+		if r == '}' && depth > 0 {
+			depth--
+			continue
+		}
+		if depth == 0 {
+			n += 10
+		}
+	}
+	return n
+}
+
+// verifCheckFormat formats text with the TEST font and checks every produced line: it fits maxWidth
+// (plus the cursor overlap when the line ends with \l or \p) unless it holds a single word.
+func verifCheckFormat(text string, maxWidth, overlap, numLines int) string {
+	fc := &FontConfig{}
+	out, err := fc.FormatText(text, maxWidth, overlap, "TEST", numLines)
+	if err != nil {
+		return ""
+	}
+	for _, line := range splitLines(out) {
+		code := ""
+		body := line
+		for _, c := range []string{`\n`, `\l`, `\p`} {
+			if len(line) >= 2 && line[len(line)-2:] == c {
+				code, body = c, line[:len(line)-2]
+			}
+		}
+		words := splitWords(body)
+		w := 0
+		for i, x := range words {
+			if i > 0 {
+				w += 10
+			}
+			w += verifWordWidth(x)
+		}
+		need := w
+		if code == `\l` || code == `\p` {
+			need += overlap
+		}
+		if len(words) > 1 && need > maxWidth {
+			return fmt.Sprintf("line %q is %d px wide (+%d overlap for %q) > %d; output %q", body, w, need-w, code, maxWidth, out)
+		}
+	}
+	return ""
+}
+
+func splitLines(s string) []string {
+	var out []string
+	cur := ""
+	for _, r := range s {
+		if r == '\n' {
+			out = append(out, cur)
+			cur = ""
+		} else {
+			cur += string(r)
+		}
+	}
+	if cur != "" {
+		out = append(out, cur)
+	}
+	return out
+}
+
+func splitWords(s string) []string {
+	var out []string
+	cur := ""
+	depth := 0
+	for _, r := range s {
+		if r == '{' {
+			depth++
+		} else if r == '}' && depth > 0 {
+			depth--
+		}
+		if r == ' ' && depth == 0 {
+			if cur != "" {
+				out = append(out, cur)
+			}
+			cur = ""
+		} else {
+			cur += string(r)
+		}
+	}
+	if cur != "" {
+		out = append(out, cur)
+	}
+	return out
+}
+
+// D11: an explicit \l on a line before the last line of the box: the prompt is shown, the overlap is not reserved
+func TestVerifWitness_D11(t *testing.T) {
+	if msg := verifCheckFormat(`ccc ccc \l ddd`, 70, 20, 2); msg != "" {
+		fmt.Println("WITNESS-FAILS D11", msg)
+	} else {
+		fmt.Println("WITNESS-PASSES D11")
+	}
+}
+
+// TestVerifSearch_C07: bounded search over short texts (bounded stand-in used to look for a failing input)
+func TestVerifSearch_C07(t *testing.T) {
+	atoms := []string{"a", "bbb", "cccc", `\n`, `\l`, `\p`, `\N`, "{X}", " "}
+	found := 0
+	var rec func(prefix string, n int)
+	rec = func(prefix string, n int) {
+		if found >= 3 {
+			return
+		}
+		for _, cfg := range [][3]int{{70, 20, 2}, {50, 10, 1}, {60, 0, 3}, {120, 30, 2}} {
+			if msg := verifCheckFormat(prefix, cfg[0], cfg[1], cfg[2]); msg != "" {
+				fmt.Printf("FAILING-INPUT text=%q max=%d overlap=%d lines=%d: %s\n", prefix, cfg[0], cfg[1], cfg[2], msg)
+				found++
+				return
+			}
+		}
+		if n == 0 {
+			return
+		}
+		for _, a := range atoms {
+			sep := " "
+			if prefix == "" {
+				sep = ""
+			}
+			rec(prefix+sep+a, n-1)
+		}
+	}
+	rec("", 5)
+	fmt.Printf("SEARCH-DONE C07 found=%d\n", found)
+}
